@@ -7,6 +7,10 @@
                        c5ceb09 every class overrides reset() to rewind it.
    merge_state pools the windows into an enlarged buffer WITHOUT enlarging max_num_updates
    (all four classes) -- modelled as it is.
+   merge_state variants (orthogonal to the cursor variants below; selected per class by a witness run on
+   the tree under test, families/window.py merge_capacity_variant):
+              win_metric     = merge keeps max_num_updates (the code as it is: wmrg)
+              win_metric_cap = merge sets max_num_updates to the pooled capacity (repaired: wmrg_cap)
    Variants:  V_code  = the code as it is (cursor rewound by reset(), NOT saved / loaded)
               V_fixed = cursor treated like a registered state everywhere (repaired load)
               V_pre   = the tree before c5ceb09 (cursor neither saved, loaded nor reset) *)
@@ -107,6 +111,19 @@ Definition wmrg (c : wcfg) (s : wst S) (ms : list (wst S)) : wst S :=
      w_max := w_max s;
      w_life := if cLife c then fold_left (fun l m => ladd c l (w_life m)) ms (w_life s) else w_life s |}.
 
+(* REPAIRED merge_state (fixes/window-merge-capacity.patch: `self.max_num_updates = merge_max_num_updates`
+   just before the cursor is set, as WindowedBinaryAUROC.merge_state always did): the same pooled buffers,
+   max_num_updates becomes the pooled capacity and the cursor is reduced modulo THAT *)
+Definition wmrg_cap (c : wcfg) (s : wst S) (ms : list (wst S)) : wst S :=
+  let newlen := fold_left (fun a m => a + w_max m)%nat ms (w_max s) in
+  let parts := wfilled s ++ flat_map wfilled ms in
+  let idx := List.length parts in
+  {| w_buf := parts ++ repeat (zcol c) (newlen - idx);
+     w_cur := Nat.modulo idx newlen;
+     w_tot := fold_left (fun a m => a + w_tot m)%nat ms (w_tot s);
+     w_max := newlen;
+     w_life := if cLife c then fold_left (fun l m => ladd c l (w_life m)) ms (w_life s) else w_life s |}.
+
 Definition with_cur (k : nat) (s : wst S) : wst S :=
   {| w_buf := w_buf s; w_cur := k; w_tot := w_tot s; w_max := w_max s; w_life := w_life s |}.
 
@@ -120,6 +137,14 @@ Definition win_metric : Metric :=
      load := fun _ tgt d => if cur_saved fixed then d else with_cur (w_cur tgt) d;
      (* reset(): registered states back to their defaults; the override rewinds the cursor
         (before c5ceb09 the cursor stayed) *)
+     rst := fun c s => if cur_reset fixed then winit c else with_cur (w_cur s) (winit c) |}.
+(* the same class with the repaired merge_state (nothing else differs) *)
+Definition win_metric_cap : Metric :=
+  {| cfg := wcfg; st := wst S; batch := wbatch; out := wout (wR W);
+     init := winit; valid := wvalid W; upd := wupd; mrg := wmrg_cap; cmp := wcmp;
+     prep := fun _ s => s;
+     save := fun _ s => if cur_saved fixed then s else with_cur 0 s;
+     load := fun _ tgt d => if cur_saved fixed then d else with_cur (w_cur tgt) d;
      rst := fun c s => if cur_reset fixed then winit c else with_cur (w_cur s) (winit c) |}.
 End Ring.
 
@@ -331,3 +356,36 @@ Definition run_wne_fixed := run_pool (wne V_fixed) (wne_codec V_fixed).
 (* ---------- references: the NON-windowed metric over a list of updates ---------- *)
 Definition win_ref (W : WinSpec) (c : wcfg) (us : list wbatch) : wR W :=
   wgam W c (tsum W c (map (wstat W c) us)).
+
+(* ---------- the four classes with the REPAIRED merge_state (fixes/window-merge-capacity.patch) ---------- *)
+Definition wctr_cap (fixed : variant) : Metric := win_metric_cap ctr_spec fixed.
+Definition wctr_cap_codec (fixed : variant) : Codec (wctr_cap fixed) :=
+  Build_Codec (wctr_cap fixed) dec_wcfg dec_wb wctr_enc_st (enc_wout vlistQ).
+(* @model wctr_cap run_wctr_cap *)
+Definition run_wctr_cap := run_pool (wctr_cap V_code) (wctr_cap_codec V_code).
+(* @model wctr_cap_fixed run_wctr_cap_fixed *)
+Definition run_wctr_cap_fixed := run_pool (wctr_cap V_fixed) (wctr_cap_codec V_fixed).
+
+Definition wcal_cap (fixed : variant) : Metric := win_metric_cap wcal_spec fixed.
+Definition wcal_cap_codec (fixed : variant) : Codec (wcal_cap fixed) :=
+  Build_Codec (wcal_cap fixed) dec_wcfg dec_wb wcal_enc_st (enc_wout vlistQ).
+(* @model wcal_cap run_wcal_cap *)
+Definition run_wcal_cap := run_pool (wcal_cap V_code) (wcal_cap_codec V_code).
+(* @model wcal_cap_fixed run_wcal_cap_fixed *)
+Definition run_wcal_cap_fixed := run_pool (wcal_cap V_fixed) (wcal_cap_codec V_fixed).
+
+Definition wmse_cap (fixed : variant) : Metric := win_metric_cap mse_spec fixed.
+Definition wmse_cap_codec (fixed : variant) : Codec (wmse_cap fixed) :=
+  Build_Codec (wmse_cap fixed) dec_wcfg dec_wb wmse_enc_st (enc_wout mse_out_val).
+(* @model wmse_cap run_wmse_cap *)
+Definition run_wmse_cap := run_pool (wmse_cap V_code) (wmse_cap_codec V_code).
+(* @model wmse_cap_fixed run_wmse_cap_fixed *)
+Definition run_wmse_cap_fixed := run_pool (wmse_cap V_fixed) (wmse_cap_codec V_fixed).
+
+Definition wne_cap (fixed : variant) : Metric := win_metric_cap ne_spec fixed.
+Definition wne_cap_codec (fixed : variant) : Codec (wne_cap fixed) :=
+  Build_Codec (wne_cap fixed) dec_wcfg dec_wb wne_enc_st (enc_wout (fun l => VL (map ne_val l))).
+(* @model wne_cap run_wne_cap *)
+Definition run_wne_cap := run_pool (wne_cap V_code) (wne_cap_codec V_code).
+(* @model wne_cap_fixed run_wne_cap_fixed *)
+Definition run_wne_cap_fixed := run_pool (wne_cap V_fixed) (wne_cap_codec V_fixed).
